@@ -116,35 +116,7 @@ Proof.
   unfold step_macnames. destruct (ver_lt (maxVersion (sc o)) (3, 3)); [right|left]; auto.
 Qed.
 
-Lemma step_ciphers_spec I h o :
-  (step_ciphers I h o = (h, o) /\ i_tdes I = true) \/
-  (step_ciphers I h o = (hset (h ++ [G h o F_cipherNames]) (List.length h)
-                              (filter (fun v => negb (py_eq v (VStr "3des"))) (G h o F_cipherNames)),
-                         set_loc o F_cipherNames (List.length h)) /\ i_tdes I = false).
-Proof.
-  unfold step_ciphers. destruct (i_tdes I); cbn [negb]; [left; auto|right]. split; [|reflexivity].
-  unfold halloc, remove_all_matches. rewrite hget_app_new. reflexivity.
-Qed.
-
-Lemma frame_step_impl I h o : frame_except (L o F_cipherImplementations) h (step_impl I h o).
-Proof.
-  unfold step_impl.
-  destruct (negb (i_m2crypto I)); destruct (negb (i_pycrypto I)).
-  - eapply frame_except_trans; apply frame_remove.
-  - apply frame_remove.
-  - apply frame_remove.
-  - apply frame_all_except, frame_all_refl.
-Qed.
-
-Lemma frame_step_ciphers I h o : frame_all h (fst (step_ciphers I h o)).
-Proof.
-  destruct (step_ciphers_spec I h o) as [[E _]|[E _]]; rewrite E; cbn [fst]; [apply frame_all_refl|].
-  split.
-  - rewrite hset_length, app_length. lia.
-  - intros l Hl. rewrite hget_hset_neq by lia. apply hget_app_old. exact Hl.
-Qed.
-
-(* filter composition used for the in-place filtering *)
+(* filter composition *)
 Lemma filter_filter {A} (p q : A -> bool) l : filter q (filter p l) = filter (fun x => p x && q x) l.
 Proof.
   induction l as [|x t IH]; cbn [filter]; auto.
@@ -154,30 +126,63 @@ Qed.
 Lemma filter_true {A} (l : list A) : filter (fun _ => true) l = l.
 Proof. induction l as [|x t IH]; cbn [filter]; congruence. Qed.
 
-Lemma step_impl_cell I h o :
-  (L o F_cipherImplementations < List.length h)%nat ->
-  hget (step_impl I h o) (L o F_cipherImplementations)
-  = filter (impl_available I) (hget h (L o F_cipherImplementations)).
+Lemma forallb_filter_id {A} (p : A -> bool) l : forallb p l = true -> filter p l = l.
 Proof.
-  intros Hl. unfold step_impl, remove_all_matches, impl_available.
-  set (p := L o F_cipherImplementations) in *.
-  destruct (i_m2crypto I); destruct (i_pycrypto I); cbn [negb].
-  - symmetry. etransitivity; [|apply filter_true]. apply filter_ext. intros a.
-    rewrite !andb_false_r. reflexivity.
-  - rewrite hget_hset_eq by exact Hl. apply filter_ext. intros a. rewrite andb_false_r, !andb_true_r. reflexivity.
-  - rewrite hget_hset_eq by exact Hl. apply filter_ext. intros a. rewrite andb_false_r, !andb_true_r.
-    cbn [negb andb]. destruct (negb (py_eq a (VStr "openssl"))); reflexivity.
-  - rewrite hget_hset_eq by (rewrite hset_length; exact Hl). rewrite hget_hset_eq by exact Hl.
-    rewrite filter_filter. apply filter_ext. intros a. rewrite !andb_true_r. reflexivity.
+  induction l as [|x t IH]; cbn [forallb filter]; auto. intros H. apply andb_true_iff in H.
+  destruct H as [H1 H2]. rewrite H1. f_equal. apply IH. exact H2.
 Qed.
 
-Lemma step_impl_length I h o : List.length (step_impl I h o) = List.length h.
+(* allocate a copy of x and then overwrite the NEW cell any number of times: old cells untouched *)
+Lemma frame_hset_new h h' y : frame_all h h' -> frame_all h (hset h' (List.length h) y).
 Proof.
-  unfold step_impl, remove_all_matches.
-  destruct (negb (i_m2crypto I)); destruct (negb (i_pycrypto I)); rewrite ?hset_length; reflexivity.
+  intros [A B]. split; [rewrite hset_length; exact A|].
+  intros l Hl. rewrite hget_hset_neq by lia. apply B. exact Hl.
 Qed.
 
-(* ---- frame condition ------------------------------------------------------------------------- *)
+Lemma frame_remove_new h h' needle : frame_all h h' -> frame_all h (remove_all_matches h' (List.length h) needle).
+Proof. intros F. unfold remove_all_matches. apply frame_hset_new. exact F. Qed.
+
+(* what _sanity_check_implementations does to the heap: a new cell holding the filtered copy *)
+Lemma step_impl_spec I h o :
+  exists h4, step_impl I h o = (h4, set_loc o F_cipherImplementations (List.length h)) /\
+             List.length h4 = Datatypes.S (List.length h) /\ frame_all h h4 /\
+             hget h4 (List.length h) = filter (impl_available I) (G h o F_cipherImplementations).
+Proof.
+  unfold step_impl, halloc, impl_available. set (x := G h o F_cipherImplementations).
+  assert (L0 : List.length (h ++ [x]) = Datatypes.S (List.length h)) by (rewrite app_length; cbn; lia).
+  assert (F0 : frame_all h (h ++ [x])) by (apply (frame_alloc h x)).
+  assert (P : (List.length h < List.length (h ++ [x]))%nat) by lia.
+  destruct (i_m2crypto I); destruct (i_pycrypto I); cbn [negb]; eexists; (split; [reflexivity|]).
+  - split; [exact L0|]. split; [exact F0|]. rewrite hget_app_new.
+    symmetry. etransitivity; [|apply filter_true]. apply filter_ext. intros a. rewrite !andb_false_r. reflexivity.
+  - unfold remove_all_matches. split; [rewrite hset_length; exact L0|]. split; [apply frame_hset_new; exact F0|].
+    rewrite hget_hset_eq by exact P. rewrite hget_app_new. apply filter_ext. intros a.
+    rewrite andb_false_r, !andb_true_r. reflexivity.
+  - unfold remove_all_matches. split; [rewrite hset_length; exact L0|]. split; [apply frame_hset_new; exact F0|].
+    rewrite hget_hset_eq by exact P. rewrite hget_app_new. apply filter_ext. intros a.
+    rewrite andb_false_r, !andb_true_r. cbn [negb andb]. destruct (negb (py_eq a (VStr "openssl"))); reflexivity.
+  - unfold remove_all_matches. split; [rewrite !hset_length; exact L0|].
+    split; [apply frame_hset_new, frame_hset_new; exact F0|].
+    rewrite hget_hset_eq by (rewrite hset_length; exact P). rewrite hget_hset_eq by exact P.
+    rewrite hget_app_new, filter_filter. apply filter_ext. intros a. rewrite !andb_true_r. reflexivity.
+Qed.
+
+Definition not_3des_v (v : val) : bool := negb (py_eq v (VStr "3des")).
+
+Lemma step_ciphers_spec I h o :
+  (step_ciphers I h o = (h, o) /\ i_tdes I = true) \/
+  (exists h5, step_ciphers I h o = (h5, set_loc o F_cipherNames (List.length h)) /\ i_tdes I = false /\
+              List.length h5 = Datatypes.S (List.length h) /\ frame_all h h5 /\
+              hget h5 (List.length h) = filter not_3des_v (G h o F_cipherNames)).
+Proof.
+  unfold step_ciphers. destruct (i_tdes I); cbn [negb]; [left; auto|right].
+  unfold halloc, remove_all_matches. set (x := G h o F_cipherNames).
+  assert (L0 : List.length (h ++ [x]) = Datatypes.S (List.length h)) by (rewrite app_length; cbn; lia).
+  eexists. split; [reflexivity|]. split; [reflexivity|]. split; [rewrite hset_length; exact L0|].
+  split; [apply frame_hset_new; apply (frame_alloc h x)|].
+  rewrite hget_hset_eq by lia. rewrite hget_app_new. reflexivity.
+Qed.
+
 Lemma wf_L h s f : wf h s = true -> (f < NF)%nat -> (L s f < List.length h)%nat.
 Proof.
   unfold wf. intros H Hf. apply andb_true_iff in H. destruct H as [H1 H2].
@@ -186,63 +191,29 @@ Proof.
   apply H2 in HI. apply Nat.ltb_lt in HI. exact HI.
 Qed.
 
-Lemma validate_frame T I h s h' r :
-  wf h s = true -> validate T I h s = (h', r) ->
-  frame_except (L s F_cipherImplementations) h h' /\
-  (hget h' (L s F_cipherImplementations) = hget h (L s F_cipherImplementations) \/
-   hget h' (L s F_cipherImplementations) = filter (impl_available I) (hget h (L s F_cipherImplementations))).
+(* ---- frame condition (full): validate() only allocates; every cell that existed before the call keeps
+   its content, whatever the outcome ------------------------------------------------------------- *)
+Lemma validate_frame T I h s h' r : validate T I h s = (h', r) -> frame_all h h'.
 Proof.
-  intros W H. unfold validate in H.
-  assert (Hp : (L s F_cipherImplementations < List.length h)%nat) by (apply wf_L; [exact W|unfold NF, F_cipherImplementations; lia]).
-  set (p := L s F_cipherImplementations) in *.
-  destruct (checks_A T h s); [|injection H as <- _; split; [apply frame_all_except, frame_all_refl|left; reflexivity]].
-  destruct (step_versions h s) as [[h1 o1]|e] eqn:E1;
-    [|injection H as <- _; split; [apply frame_all_except, frame_all_refl|left; reflexivity]].
-  assert (F1 : frame_all h h1 /\ L o1 F_cipherImplementations = p /\ L o1 F_cipherNames = L s F_cipherNames).
-  { apply step_versions_spec in E1. destruct E1 as [[-> [-> _]]|[l [_ [-> [-> _]]]]].
-    - split; [apply frame_all_refl|auto].
-    - split; [apply (frame_alloc h l)|]. split; apply L_set_loc_neq; discriminate. }
-  destruct F1 as [F1 [P1 C1]].
-  destruct (sanityCheckExtensions T (lists h1 o1) (sc o1));
-    [|injection H as <- _; split; [apply frame_all_except, F1|left; apply F1; exact Hp]].
+  intros H. unfold validate in H.
+  destruct (checks_A T h s); [|injection H as <- _; apply frame_all_refl].
+  destruct (step_versions h s) as [[h1 o1]|e] eqn:E1; [|injection H as <- _; apply frame_all_refl].
+  assert (F1 : frame_all h h1).
+  { apply step_versions_spec in E1. destruct E1 as [[-> _]|[l [_ [-> _]]]]; [apply frame_all_refl|apply (frame_alloc h l)]. }
+  destruct (sanityCheckExtensions T (lists h1 o1) (sc o1)); [|injection H as <- _; exact F1].
   destruct (step_macnames s h1 o1) as [h2 o2] eqn:E2.
-  assert (F2 : frame_all h h2 /\ L o2 F_cipherImplementations = p).
-  { destruct (step_macnames_spec s h1 o1) as [[E _]|[E _]]; rewrite E in E2; injection E2 as <- <-.
-    - split; [exact F1|exact P1].
-    - split; [eapply frame_all_trans; [exact F1|apply (frame_alloc h1)]|].
-      rewrite L_set_loc_neq by discriminate. exact P1. }
-  destruct F2 as [F2 P2].
-  destruct (checks_C T h2 o2);
-    [|injection H as <- _; split; [apply frame_all_except, F2|left; apply F2; exact Hp]].
-  assert (Hp2 : (p < List.length h2)%nat) by (destruct F2 as [A _]; lia).
-  assert (F4 : frame_except p h (step_impl I h2 o2)).
-  { eapply frame_except_trans; [apply frame_all_except, F2|]. rewrite <- P2. apply frame_step_impl. }
-  assert (C4 : hget (step_impl I h2 o2) p = filter (impl_available I) (hget h p)).
-  { rewrite <- P2. rewrite step_impl_cell by (rewrite P2; exact Hp2). rewrite P2.
-    f_equal. apply F2. exact Hp. }
-  destruct (isnil (G (step_impl I h2 o2) o2 F_cipherImplementations));
-    [injection H as <- _; split; [exact F4|right; exact C4]|].
-  destruct (step_ciphers I (step_impl I h2 o2) o2) as [h5 o5] eqn:E5.
-  assert (F5 : frame_all (step_impl I h2 o2) h5).
-  { pose proof (frame_step_ciphers I (step_impl I h2 o2) o2) as F. rewrite E5 in F. exact F. }
-  assert (R : frame_except p h h5 /\ hget h5 p = filter (impl_available I) (hget h p)).
-  { split; [eapply frame_except_trans; [exact F4|apply frame_all_except, F5]|].
-    rewrite <- C4. apply F5. rewrite step_impl_length. exact Hp2. }
-  destruct (isnil (G h5 o5 F_cipherNames)); injection H as <- _; (split; [apply R|right; apply R]).
-Qed.
-
-Lemma forallb_filter_id {A} (p : A -> bool) l : forallb p l = true -> filter p l = l.
-Proof.
-  induction l as [|x t IH]; cbn [forallb filter]; auto. intros H. apply andb_true_iff in H.
-  destruct H as [H1 H2]. rewrite H1. f_equal. apply IH. exact H2.
-Qed.
-
-Lemma frame_when_available T I h s h' r :
-  wf h s = true -> validate T I h s = (h', r) ->
-  forallb (impl_available I) (hget h (L s F_cipherImplementations)) = true ->
-  forall l, (l < List.length h)%nat -> hget h' l = hget h l.
-Proof.
-  intros W H A l Hl. destruct (validate_frame T I h s h' r W H) as [[_ F] C].
-  destruct (Nat.eq_dec l (L s F_cipherImplementations)) as [->|N]; [|apply F; assumption].
-  destruct C as [C|C]; [exact C|]. rewrite C. apply forallb_filter_id. exact A.
+  assert (F2 : frame_all h h2).
+  { destruct (step_macnames_spec s h1 o1) as [[E _]|[E _]]; rewrite E in E2; injection E2 as <- _; [exact F1|].
+    eapply frame_all_trans; [exact F1|apply (frame_alloc h1)]. }
+  destruct (checks_C T h2 o2); [|injection H as <- _; exact F2].
+  destruct (step_impl_spec I h2 o2) as [h4 [E4 [_ [F4 _]]]]. rewrite E4 in H.
+  assert (F4' : frame_all h h4) by (eapply frame_all_trans; eassumption).
+  destruct (isnil (G h4 (set_loc o2 F_cipherImplementations (List.length h2)) F_cipherImplementations));
+    [injection H as <- _; exact F4'|].
+  set (o4 := set_loc o2 F_cipherImplementations (List.length h2)) in *.
+  assert (F5 : frame_all h (fst (step_ciphers I h4 o4))).
+  { destruct (step_ciphers_spec I h4 o4) as [[E _]|[h5 [E [_ [_ [F _]]]]]]; rewrite E; cbn [fst]; [exact F4'|].
+    eapply frame_all_trans; eassumption. }
+  destruct (step_ciphers I h4 o4) as [h5 o5]. cbn [fst] in F5.
+  destruct (isnil (G h5 o5 F_cipherNames)); injection H as <- _; exact F5.
 Qed.
